@@ -168,6 +168,9 @@ func (r *SeqRun) execHistories(hs []*History, tag string) {
 				r.mu.Unlock()
 			}
 			for i := w; i < len(hs); i += workers {
+				if seqHangs.Load() >= 6 { // code that deadlocks: every hang is recorded and rejected; do not pay 120 s for each of thousands
+					break
+				}
 				if tw.n > 250000 { // bounded shards: TLC loads a whole trace file
 					flush()
 					part++
